@@ -6,7 +6,7 @@ Program (JSON):
   ["include", partial_name, bind|None, [[name, val]...]] | ["incr", name] | ["decr", name] | ["text", s]
   val  = ["lit", json] | ["path", path]
   bind = ["with"|"for", path, alias|None]
-  path = [root, seg...]; seg = ["k", key] | ["q", key] | ["i", int] | ["v", path]
+  path = [root | ["v", path], seg...]; seg = ["k", key] | ["q", key] | ["i", int] | ["v", path]
 
 Lookup order (docs/render_context.md, property text): block scopes innermost
 first, then assigned/captured variables (always the template's top-level
@@ -112,7 +112,12 @@ class Interp:
         return UNDEF
 
     def path(self, p: list) -> Any:
-        obj = self.root(p[0])
+        if isinstance(p[0], list):
+            # [inner] at the root: the variable named by the value of the inner path
+            name = self.path(p[0][1])
+            obj = self.root(name) if isinstance(name, str) else UNDEF
+        else:
+            obj = self.root(p[0])
         for seg in p[1:]:
             kind, val = seg
             key = self.path(val) if kind == "v" else val
@@ -230,7 +235,7 @@ class Interp:
 
 
 def path_src(p: list) -> str:
-    out = [p[0]]
+    out = [p[0] if isinstance(p[0], str) else "[" + path_src(p[0][1]) + "]"]
     for kind, val in p[1:]:
         if kind == "k":
             out.append("." + val)
